@@ -15,7 +15,7 @@ import vlib
 from vlib import match
 
 OPS_V = ["==", "!=", "in", "notin", "matches", "notmatches"]
-CFGS = [0, 2, 3, 4, 5, 6, 7, 13, 14, 10]   # default first; unknown values of each kind; the unwrap hook
+CFGS = [0, 2, 3, 4, 5, 6, 7, 13, 14, 10, 8]   # default first; unknown values of each kind; the unwrap hook
 
 
 def main():
@@ -71,7 +71,7 @@ def main():
     chk.notes["groups_by_selector_class"] = classes
     chk.notes["rule"] = ("selector paths of depth 1-4 over a document with maps, named / nil / empty / int-keyed / interface-keyed maps, structs, "
                          "pointers to maps, lists, scalars, nil and a hook-unwrapped map; absent at leaf, intermediate and root; x 8 operators x "
-                         "quantifiers x {no unknown value, unknown string/empty/int/nil/list/map/bool/float, unwrap hook}; non-trivial = the "
+                         "quantifiers x {no unknown value, unknown string/empty/int/nil/list/map/bool/float, unwrap hook, json tag + unknown string}; non-trivial = the "
                          "selector really is absent (class absent or nf)")
     if classes.get("absent", 0) == 0 or classes.get("nf", 0) == 0:
         raise vlib.Infra("no absent selector was exercised")
